@@ -446,7 +446,15 @@ func genRule(r *rng.R, d *doc) rule {
 			k = 2 + r.Intn(2)
 		}
 		for j := 0; j < k; j++ {
-			sel = append(sel, genSnode(r, j == 0, d))
+			sn := genSnode(r, j == 0, d)
+			if j < k-1 && r.P(2, 3) {
+				// the compounds before the subject select ancestors: those are groups
+				sn.typ = rng.Pick(r, []string{"g", "g", "g", "*"})
+				if r.P(1, 2) {
+					sn.as = nil
+				}
+			}
+			sel = append(sel, sn)
 		}
 		ru.sels = append(ru.sels, sel)
 	}
@@ -1241,6 +1249,19 @@ func directedDocs() []struct {
 	add("skewX", mk(nil, nil, &[4]float64{0, 0, 100, 100}, rect(attr{kind: "transform", ts: []tf{{kind: "skewX", a: []float64{45}, cs: [2]float64{t, 0}}}})))
 	// 8: aspect ratio mismatch (xMidYMid meet)
 	add("aspect-mismatch", mk(&dim{200, ""}, &dim{100, ""}, &[4]float64{0, 0, 100, 100}, rect()))
+	// 9, 10: a descendant combinator after another combinator must try every ancestor: the nearest g is not a child of .a,
+	// the next one is
+	grp := func(cls string, kids ...*node) *node {
+		n := &node{kind: "group", tag: "g", kids: kids}
+		if cls != "" {
+			n.attrs = []attr{{kind: "class", names: []string{cls}}}
+		}
+		return n
+	}
+	chain := [][]snode{{{typ: "", as: []asel{{"class", "a"}}}, {typ: "g", child: true}, {typ: "rect"}}}
+	add("descendant-backtracking", mk(nil, nil, &[4]float64{0, 0, 100, 100}, style(rule{sels: chain, props: []prop{blue}}), grp("a", grp("", grp("", rect())))))
+	chain2 := [][]snode{{{typ: "g", as: []asel{{"class", "a"}}}, {typ: "g"}, {typ: "g", child: true}, {typ: "rect", child: true}}}
+	add("descendant-backtracking-2", mk(nil, nil, &[4]float64{0, 0, 100, 100}, style(rule{sels: chain2, props: []prop{red}}), grp("a", grp("", grp("a", grp("", grp("", rect())))))))
 	return out
 }
 
